@@ -203,7 +203,7 @@ def run_case(case):
                 continue
             ga, gb = _grads(ep, A), _grads(ep, B)
             for i, (x, y) in enumerate(zip(ga, gb)):
-                if (x is None) != (y is None) or (x is not None and float(np.abs(x - y).max()) > 1e-10 * max(1.0, float(np.abs(y).max()))):
+                if (x is None) != (y is None) or (x is not None and not (float(np.abs(x - y).max()) <= 1e-10 * max(1.0, float(np.abs(y).max())))):
                     viol.append(dict(sig=f"final-grad-differs:{ep}", cls=f"grad:{ep}:{case['graph']}",
                                      msg=f"{hdesc}: param {i}: torchjd side {None if x is None else x.tolist()} twin {None if y is None else y.tolist()}"))
                     break
